@@ -78,4 +78,79 @@ macro "mp_finish" : tactic => `(tactic|
   ((repeat' (split_ifs <;> (try mp_path) <;> (try simp_all (decide := true)))) <;>
    (try simp only [orElse_none, Int.mul_one, Int.one_mul, true_and, and_true]) <;> (try (repeat' constructor)) <;> (try omega)))
 
+/-! ### second round: bit arithmetic, floor division, text (one lemma per new construct) -/
+
+theorem pyAnd_nat (a b : Nat) : pyAnd (a : Int) (b : Int) = .ok ((a &&& b : Nat) : Int) := by
+  simp [pyAnd]
+
+theorem pyOr_nat (a b : Nat) : pyOr (a : Int) (b : Int) = .ok ((a ||| b : Nat) : Int) := by
+  simp [pyOr]
+
+theorem pyAnd_neg (a b : Int) (h : a < 0 ∨ b < 0) : pyAnd a b = .error .unsupported := by
+  have : ¬ (0 ≤ a ∧ 0 ≤ b) := by omega
+  simp [pyAnd, this]
+
+theorem pyShr_nat (a b : Nat) : pyShr (a : Int) (b : Int) = .ok ((a / 2 ^ b : Nat) : Int) := by
+  simp [pyShr, Int.shiftRight_eq_div_pow]
+
+theorem pyShr_int (a : Int) (b : Nat) : pyShr a (b : Int) = .ok (a / ((2 ^ b : Nat) : Int)) := by
+  simp [pyShr, Int.shiftRight_eq_div_pow]
+
+theorem pyShl_nat (a : Int) (b : Nat) : pyShl a (b : Int) = .ok (a * 2 ^ b) := by
+  simp [pyShl]
+
+theorem pyShift_neg (a b : Int) (h : b < 0) : pyShr a b = .error .valueError ∧ pyShl a b = .error .valueError := by
+  have : ¬ (0 ≤ b) := by omega
+  simp [pyShr, pyShl, this]
+
+/-- for a positive divisor Python's `%` is Lean's `%` on `Int` -/
+theorem pyMod_pos (a b : Int) (h : 0 < b) : pyMod a b = .ok (a % b) := by
+  have hb : b ≠ 0 := by omega
+  have h0 : 0 ≤ b := by omega
+  simp [pyMod, hb, Int.fmod_eq_emod, h0]
+
+theorem pyFloorDiv_pos (a b : Int) (h : 0 < b) : pyFloorDiv a b = .ok (a / b) := by
+  have hb : b ≠ 0 := by omega
+  have h0 : 0 ≤ b := by omega
+  simp [pyFloorDiv, hb, Int.fdiv_eq_ediv, h0]
+
+theorem pyMod_zero (a : Int) : pyMod a 0 = .error .zeroDivisionError := rfl
+theorem pyFloorDiv_zero (a : Int) : pyFloorDiv a 0 = .error .zeroDivisionError := rfl
+
+theorem land_mask24 (h : Nat) : h &&& 16777215 = h % 16777216 := Nat.and_two_pow_sub_one_eq_mod h 24
+theorem land_mask8 (h : Nat) : h &&& 255 = h % 256 := Nat.and_two_pow_sub_one_eq_mod h 8
+
+theorem pyInt_int (i : Int) : pyInt (.int i) = .ok i := rfl
+theorem pyInt_bool (b : Bool) : pyInt (.bool b) = .ok (if b then 1 else 0) := rfl
+theorem pyInt_none : pyInt .none = .error .typeError := rfl
+theorem asInt_bool (b : Bool) : asInt (.bool b) = .ok (if b then 1 else 0) := rfl
+theorem asInt_str (cs : List Nat) : asInt (.str cs) = .error .typeError := rfl
+theorem truthy_str (cs : List Nat) : truthy (.str cs) = !cs.isEmpty := rfl
+theorem truthy_ilist (l : List Int) : truthy (.ilist l) = !l.isEmpty := rfl
+theorem truthy_bit (b : Bool) : truthy (.int (if b then 1 else 0)) = b := by cases b <;> rfl
+
+theorem strLookup_nil (x : List Nat) : strLookup [] x = .error .keyError := rfl
+theorem strLookup_cons (k v x : List Nat) (t : List (List Nat × List Nat)) :
+    strLookup ((k, v) :: t) x = if k = x then .ok (.str v) else strLookup t x := rfl
+
+theorem prodInts_nil : prodInts [] = 1 := rfl
+theorem prodInts_cons (x : Int) (xs : List Int) : prodInts (x :: xs) = x * prodInts xs := rfl
+
+theorem fmtBin_nat (w n : Nat) :
+    fmtBin w (n : Int) = .ok (List.replicate (w - (binStr n).length) 48 ++ binStr n) := by
+  simp [fmtBin]
+
+theorem fmtBin_neg (w : Nat) (i : Int) (h : i < 0) : fmtBin w i = .error .unsupported := by
+  have : ¬ (0 ≤ i) := by omega
+  simp [fmtBin, this]
+
+/-- symbolic execution for blocks that use the second-round constructs -/
+macro "mp_sym" : tactic => `(tactic|
+  (simp (decide := true) only [runItem, exec, eval, bind_ok', bind_error', lookup_cons_eq, lookup_cons_ne,
+    lookup_setVar_eq, lookup_setVar_ne, truthy_none, truthy_bool, truthy_slice, truthy_int, truthy_str, truthy_ilist,
+    truthy_bit, asInt_int, asInt_none, asInt_bool, asInt_str, pyInt_int, pyInt_bool, pyAnd_nat, pyOr_nat, pyShr_nat,
+    pyShl_nat, strLookup_nil, strLookup_cons, prodInts_nil, prodInts_cons, *,
+    if_true, if_false, bne_iff_ne, ne_eq, decide_true, decide_false, not_false_eq_true, not_true_eq_false,
+    Bool.false_eq_true, Bool.not_true, Bool.not_false]))
+
 end Pydap
